@@ -228,6 +228,23 @@ def _random_forest(rng, n):
     return parents
 
 
+def _presented(A, dtype=None, layout=None):
+    """the same numbers as the caller may hold them (dtype used only when every value is exactly representable)"""
+    A = np.asarray(A, float)
+    out = A
+    if dtype:
+        B = A.astype(dtype)
+        if np.array_equal(B.astype(float), A):
+            out = B
+    if layout == "F":
+        out = np.asfortranarray(out)
+    elif layout == "strided" and out.ndim == 2:
+        big = np.zeros((out.shape[0], 2 * out.shape[1]), dtype=out.dtype)
+        big[:, ::2] = out
+        out = big[:, ::2]
+    return out
+
+
 class C14(PropertyCheck):
     id = "C14"
     title = "Partitional and hierarchical clustering return valid, consistent clusterings"
@@ -454,7 +471,11 @@ class C14(PropertyCheck):
         form = rng.choice(["2d", "2d", "2d", "1d" if p == 1 else "2d", "mismatch"])
         if form == "mismatch":
             C = [c + [0.0] for c in C]
-        return {"kind": "voronoi", "stream": stream, "p": p, "X": X, "C": C, "form": form}
+        return {"kind": "voronoi", "stream": stream, "p": p, "X": X, "C": C, "form": form,
+                # how the caller holds the (dyadic) data: float32 / integer dtypes when exact, Fortran / strided
+                "xdtype": rng.choice([None, None, "float32", "int16", "int64", "float32"]) if stream == "dyadic" else None,
+                "xlayout": rng.choice([None, None, "F", "strided"]),
+                "offset": rng.choice([0, 0, 0, 4096, 65536]) if stream == "dyadic" else 0}
 
     @staticmethod
     def _gen_forest(rng, n=None):
@@ -702,8 +723,12 @@ class C14(PropertyCheck):
         p = c["p"]
         X = np.array(c["X"], dtype=float).reshape(len(c["X"]), p)
         C = np.array(c["C"], dtype=float)
+        if c.get("offset"):      # a large common offset (time stamps, scanner coordinates): distances are unchanged
+            X = X + float(c["offset"]); C = C + float(c["offset"])
         pc = C.shape[1]
         xa, ca = (X[:, 0].copy(), C[:, 0].copy()) if c["form"] == "1d" else (X, C)
+        if c.get("xdtype") or c.get("xlayout"):
+            xa, ca = _presented(xa, c.get("xdtype"), c.get("xlayout")), _presented(ca, c.get("xdtype"), None)
         snap = Snapshot(X=xa, C=ca)
         line = f"voronoi {p} {X.shape[0]} {pc} {C.shape[0]} {_mat(X)} {_mat(C)}"
         fail = None
